@@ -32,6 +32,8 @@ def make_ctx(tier):
 def run(ctx, tier):
     for r, t in (("Q1", "sort is stable"), ("Q2", "comparator decoders are mirror images"),
                  ("Q3", "serializer and parser byte tables agree"), ("Q4", "C wrappers delegate by name"),
+                 ("Q7", "a compaction of the pair list (erase_if / remove_if) never compares against a string_view argument, which may "
+                        "point into the very strings being moved"),
                  ("Q6", "set(name, value): whenever a pair with that name exists, its value is overwritten and every later pair with "
                         "the name is erased, unconditionally"),
                  ("Q5", "form-urlencoded decoder: a byte is copied verbatim only after it was tested not to be '+', and ' ' is written only for '+'")):
@@ -152,8 +154,51 @@ def check_set(ctx, fx):
     ctx.floor("Q6", 2, 2, "obligations of set()")
 
 
+def check_compaction_aliasing(ctx, fx):
+    """Q7.  The views url_search_params hands out (get(), the iterators, the C API's *_iter_next) point into `params`.  Passing
+    one back to remove() / set() is what a caller does to delete "the key I am looking at".  erase_if / remove_if move-assign
+    later elements over earlier ones while the predicate is still comparing against the argument: if the argument is a view
+    into one of those elements the comparison changes mid-way and the wrong pairs survive.  The predicate must therefore
+    compare against an owned copy."""
+    n = 0
+    for f in fx.functions:
+        if not (C.first_party(f) and f.get("cls") == "ada::url_search_params"):
+            continue
+        sv_params = {p_["id"]: p_["name"] for p_ in f.get("params", []) if "string_view" in p_["ty"]}
+        for nd, st, b in C.all_nodes(f):
+            if nd.get("k") != "call" or not any(x in (nd.get("qname") or "") for x in ("erase_if", "remove_if")):
+                continue
+            if "params" not in X.show(nd):
+                continue
+            n += 1
+            # the predicate: a lambda (possibly held in a local) and what it captures
+            caps = []
+            for a in nd.get("args", []):
+                for x in X.walk(a):
+                    if x.get("k") == "lambda":
+                        caps += x.get("captures", [])
+                    if x.get("k") == "ref" and x.get("kind") == "local":
+                        for bb in f["blocks"]:
+                            for s2 in bb["stmts"]:
+                                if s2["k"] == "decl":
+                                    for v in s2["vars"]:
+                                        if v["id"] == x.get("id") and v.get("init") is not None:
+                                            for y in X.walk(v["init"]):
+                                                if y.get("k") == "lambda":
+                                                    caps += y.get("captures", [])
+            bad = [c for c in caps if c.get("id") in sv_params]
+            ctx.check("Q7", "%s: predicate of %s" % (f["name"], nd.get("name")), not bad,
+                      "captures %s" % ([c.get("name") for c in caps] or "nothing"),
+                      "the predicate compares against the string_view argument `%s` while the pairs are being move-assigned over each "
+                      "other: when the argument is a view into the list itself (the key just obtained from get() or an iterator) the "
+                      "wrong pairs are kept or erased" % ", ".join(c.get("name", "?") for c in bad),
+                      where=(st.get("loc") or "").replace("/repo/", ""))
+    ctx.floor("Q7", n, 3, "compactions of the pair list")
+
+
 def check(ctx, fx):
     check_decoder_copies(ctx, fx)
+    check_compaction_aliasing(ctx, fx)
     check_set(ctx, fx)
     # ---- Q1 ----
     f = fx.fn1("ada::url_search_params::sort")
